@@ -33,8 +33,9 @@ static int op_refdp(int argc, char **argv, FILE *out)
         if(n < 0){ aln_param_free(ap); kv_free_ints(&A); kv_free_ints(&B); return 1; }
         double gpo = ap->gpo, gpe = ap->gpe, tgpe = ap->tgpe;
         /* S_T: internal run of L columns costs gpo + (L-1)*gpe + gpo; a leading or trailing run costs L*tgpe (no open/close charge).
-           Every reading used by kalign's kernels/meetup deviates from S_T by: + {0,gpo} per terminal run, and one join column charged
-           tgpe instead of gpe (or the reverse).  Hence certificate = S_T(P) - alt_T - gpo*nterm(P) - |gpe - tgpe|. */
+           Every reading used by kalign's kernels/meetup deviates from S_T by: + {0,gpo} per terminal run, one extra tgpe for a terminal
+           run crossing the middle row, and one join column of an internal run charged tgpe instead of gpe.
+           Certificate = S_T(P) - alt_T - gpo*nterm(P) - max(0,tgpe-gpe,tgpe-gpo) - max(0,gpe-tgpe)   (proved sound for seq-seq in Lean). */
         size_t W = (size_t)m + 1, N = ((size_t)n + 1) * W;
         double *FA = malloc(sizeof(double) * N), *FG = malloc(sizeof(double) * N), *FB = malloc(sizeof(double) * N);
         double *BA = malloc(sizeof(double) * N), *BG = malloc(sizeof(double) * N), *BB = malloc(sizeof(double) * N);
@@ -109,7 +110,12 @@ static int op_refdp(int argc, char **argv, FILE *out)
         int nterm = 0;
         if(nc > 0 && cols[0] != 0) nterm++;
         if(nc > 0 && cols[nc-1] != 0) nterm++;
-        double lo = best - gpo * nterm - fabs(gpe - tgpe);
+        /* slack of the proved bound (lean/KalignModel/Props/C07Opt.lean, C07_level_bounds / C07_hirschberg_seqseq_opt):
+           lower: gpo per terminal run + max(0, tgpe-gpe, tgpe-gpo) (a terminal run crossing the middle row is charged one extra tgpe);
+           upper: max(0, gpe-tgpe) (a join inside an internal run may be charged tgpe instead of gpe) */
+        double sl_lo = tgpe - gpe > tgpe - gpo ? tgpe - gpe : tgpe - gpo; if(sl_lo < 0) sl_lo = 0;
+        double sl_hi = gpe - tgpe > 0 ? gpe - tgpe : 0;
+        double lo = best - gpo * nterm - (sl_lo + sl_hi);
         if(!okp){ fputs("trace-fail", out); }
         else{
                 fprintf(out, "cert=%.4f lo=%.4f hi=%.4f alt=%.4f cols=", lo - alt, lo, best, alt > NEG / 2 ? alt : -1e30);
